@@ -90,3 +90,155 @@ PROPS['C11'] = {
                    'ctap2::Request::deserialize (extracted on every run) against the decision table of the '
                    'property for all messages; loop-free Kani harnesses over all 256 bytes supply counterexamples.',
 }
+
+PROPS['C05'] = {
+    'level': 'proof',
+    'verus': ['c05_request_deserialize', 'c18_numeric_tables'],
+    'kani': [],
+    'assumptions': ['A1', 'A2', 'A8', 'AV', 'AS', 'AX'],
+    'explanation': 'Unbounded proof of the repo side: Verus verifies `impl From<CtapMappingError> for Error` against the '
+                   'three-code status table (cbor_smol::Error cut from the pinned dependency every run) and '
+                   'Request::deserialize against the decision table for every message (empty => 0x12, unassigned / '
+                   'unsupported byte => 0x01, decoder error => status table); required/optional declarations are '
+                   'decided by Engine D; which cbor-smol error a malformed payload yields is the assumed contract A8.',
+}
+
+PROPS['C18'] = {
+    'level': 'proof',
+    'verus': ['c18_numeric_tables', 'c11_operation'],
+    'kani': [],
+    'assumptions': ['A2', 'A11', 'AK', 'AS', 'AX'],
+    'explanation': 'Numeric identifier tables proved by Verus on the enums and TryFrom impls cut verbatim from /repo; '
+                   'string tables and bitflags proved by loop-free / length-bounded Kani harnesses on the real functions.',
+}
+
+PROPS['C10'] = {
+    'level': 'proof',
+    'verus': ['c10_dispatch_ctap2', 'c10_dispatch_ctap1', 'c10_large_blobs_default'],
+    'kani': [
+        H(ROOT + 'c10::c10_k_ctap1_version', ['ctap1::Authenticator::call_ctap1', 'ctap1::Authenticator::version', 'Rpc::call (ctap1)']),
+        H(ROOT + 'c10::c10_k_ctap2_large_blobs_not_implemented',
+          ['ctap2::Authenticator::call_ctap2', 'ctap2::Authenticator::large_blobs (default)', 'Rpc::call (ctap2)'], timeout=900),
+    ],
+    'assumptions': ['A10', 'AV', 'AK', 'AX'],
+    'explanation': 'Unbounded proof: the real default methods call_ctap2 / call_ctap1 and both blanket Rpc::call impls '
+                   '(extracted verbatim every run) are verified by Verus against a ghost call log and arbitrary handler '
+                   'outcome functions: exactly one handler call, of the right command, with the request\'s own '
+                   'parameters, result wrapped in the same-named variant or error unchanged.',
+}
+
+PROPS['C09'] = {
+    'level': 'proof',
+    'verus': ['c09_ctap1_response'],
+    'kani': [],
+    'assumptions': ['A4', 'AV', 'AK', 'AS', 'AX'],
+    'explanation': 'Unbounded proof for every capacity S, pre-fill and part length: Verus verifies the real '
+                   'ctap1::Response::serialize against the U2F raw message layout under the assumed heapless contracts '
+                   '(push / extend_from_slice are all-or-nothing and append).',
+}
+
+PROPS['C07'] = {
+    'level': 'proof',
+    'verus': ['c07_authenticator_data'],
+    'kani': [
+        H(ROOT + 'c07::c07_k_flag_bits', ['ctap2::AuthenticatorDataFlags (bitflags!)']),
+        H(ROOT + 'c07::c07_k_get_assertion_no_extensions', ['ctap2::AuthenticatorData::serialize (get_assertion flavour)'],
+          kind='gc', bound='real heapless-bytes code; extensions: None'),
+        H(ROOT + 'c07::c07_k_make_credential_small', ['ctap2::AuthenticatorData::serialize (make_credential flavour)',
+          'make_credential::AttestedCredentialData::serialize'], kind='gc', bound='aaguid <= 17, credential id <= 3, key <= 3 bytes'),
+        H(ROOT + 'c07::c07_k_capacity_frontier', ['ctap2::AuthenticatorData::serialize'], kind='gc',
+          bound='five concrete length splits around 676/677', tier='thorough', timeout=1500),
+    ],
+    'assumptions': ['A4', 'A6', 'AV', 'AK', 'AS', 'AX'],
+    'explanation': 'Unbounded proof over all lengths (incl. credential id 65535/65536), hashes, flags, counters: Verus '
+                   'verifies AuthenticatorData::serialize and both SerializeAttestedCredentialData impls (verbatim) '
+                   'against the WebAuthn layout; Kani harnesses run the real heapless-bytes code on small sizes to '
+                   'validate the assumed container contracts end to end.',
+}
+
+PROPS['C08'] = {
+    'level': 'proof',
+    'verus': ['c18_numeric_tables'],
+    'kani': [
+        H(ROOT + 'c08::c08_k_apdu_400', ['impl TryFrom<CommandView> for ctap1::Request'], kind='proof',
+          bound=None, note='all APDUs up to 400 bytes; covers every decision boundary'),
+        H(ROOT + 'c08::c08_k_data_window', ['iso7816::CommandView::try_from (dependency, checked)']),
+        H(ROOT + 'c08::c08_k_owned_command_small', ['impl TryFrom<&Command<S>> for ctap1::Request'], kind='bounded',
+          bound='S = 8'),
+        H(ROOT + 'c08::c08_k_owned_command', ['impl TryFrom<&Command<S>> for ctap1::Request'], kind='bounded',
+          bound='S = 72', tier='thorough', timeout=1500),
+        H(ROOT + 'c08::c08_k_apdu_65600', ['impl TryFrom<CommandView> for ctap1::Request'], tier='thorough',
+          timeout=3000, note='the whole short + extended APDU domain'),
+    ],
+    'assumptions': ['AK', 'AS'],
+    'explanation': 'Complete proof (loop-free harness): every APDU up to 400 bytes (quick) / 65600 bytes = the whole ISO 7816 '
+                   'domain (thorough) parsed by the real CommandView::try_from, result compared with the decision table of '
+                   'the property; borrowed outputs compared by pointer identity.',
+}
+
+_D_NOTE = ('Engine D: the effective wire tables are derived from the declarations in /repo/src (extracted by tools/declx on '
+           'every run, cfg evaluated for all 8 feature configurations) under the assumed derive contracts and compared row '
+           'by row with /verif/spec/wire_tables.json; every row is a named Verus obligation.')
+
+PROPS['C01'] = {
+    'level': 'proof',
+    'verus': ['c05_request_deserialize'],
+    'decl': True,
+    'kani': [],
+    'assumptions': ['A1', 'A2', 'A4', 'A5', 'A8', 'AV', 'AS', 'AX'],
+    'explanation': 'Proof under assumed derive contracts: Verus proves the command switch of Request::deserialize for all '
+                   'messages (each parameter-bearing byte hands exactly data[1..] to the decoder of its own command). ' + _D_NOTE,
+}
+PROPS['C02'] = {
+    'level': 'proof',
+    'decl': True,
+    'kani': [],
+    'assumptions': ['A1', 'A2', 'A3', 'A5', 'A6', 'A7', 'AS', 'AX'],
+    'explanation': 'Proof under assumed derive contracts for every member subset, value and feature configuration. ' + _D_NOTE,
+}
+PROPS['C03'] = {
+    'level': 'proof',
+    'decl': True,
+    'kani': [],
+    'assumptions': ['A1', 'A2', 'A3', 'A5', 'A6', 'A7', 'AS', 'AX'],
+    'explanation': 'Key order: for every pair of members of every serialised map type, in every feature configuration, '
+                   'canon_lt(key_i, key_j) is a Verus obligation proved with an inductive lemma. ' + _D_NOTE,
+}
+PROPS['C06'] = {
+    'level': 'proof',
+    'decl': True,
+    'kani': [],
+    'assumptions': ['A2', 'A9', 'AS', 'AX'],
+    'explanation': 'Proof of the repo-side precondition (unknown keys are routed to the skipper: plain derived Deserialize, no '
+                   'deny_unknown_fields, no flatten/untagged, text-keyed) for the seven extensible host maps; the skipper itself '
+                   '(cbor-smol ignore) is the assumed contract A9. ' + _D_NOTE,
+}
+PROPS['C12'] = {
+    'level': 'proof',
+    'decl': True,
+    'kani': [],
+    'assumptions': ['A4', 'A5', 'AS', 'AX'],
+    'explanation': 'Capacity and integer-width obligations per bounded member against the limit table, constants of sizes.rs '
+                   'evaluated per configuration; that heapless/cbor-smol enforce exactly the declared capacity is A4. ' + _D_NOTE,
+}
+PROPS['C15'] = {
+    'level': 'proof',
+    'decl': True,
+    'kani': [],
+    'assumptions': ['A1', 'A2', 'A3', 'A4', 'A5', 'AS', 'AX'],
+    'explanation': 'Both directions are generated from the same declaration: obligations that both derives are present, no '
+                   'member carries a one-directional attribute (except the rp icon), optionality agrees, numeric enums '
+                   'derive both repr impls with the specified discriminants; canonical re-encoding rests on the C03 order '
+                   'obligations. ' + _D_NOTE,
+}
+PROPS['C16'] = {
+    'level': 'proof',
+    'decl': True,
+    'kani': [],
+    'assumptions': ['A1', 'A2', 'A3', 'A5', 'AS', 'AX'],
+    'explanation': 'For every struct and every pair of distinct effective tables among the 8 feature configurations: common '
+                   'members have identical wire rows and the same relative order, members present in only one are feature-only '
+                   'per the specification, constants other than LARGE_BLOB_MAX_FRAGMENT_LENGTH do not vary, no other feature '
+                   'guards a member. ' + _D_NOTE,
+}
+PROPS['C05']['decl'] = True
